@@ -297,6 +297,11 @@ class Exec:
         if isinstance(t, TSeq):
             return t.len(sv.z) != 0
         if isinstance(t, TOpt):
+            # python truthiness of an Optional: not None AND the wrapped value is truthy (0, 0.0, "" and empty
+            # containers are falsy; opaque objects are truthy)
+            inner = SV(t.inner, t.val(sv.z))
+            if t.inner in (INT, REAL, BOOL) or isinstance(t.inner, (TSeq, TDict)):
+                return z3.And(z3.Not(t.is_none(sv.z)), self.truth(inner))
             return z3.Not(t.is_none(sv.z))
         if t is NONE:
             return z3.BoolVal(False)
@@ -549,6 +554,8 @@ class Exec:
         if isinstance(node.op, ast.USub):
             if isinstance(v.t, TSeq):
                 return self.lib.elementwise1(self, st, v, lambda x: -x, v.t.elem)
+            if z3.is_int_value(v.z) or z3.is_rational_value(v.z):
+                return SV(v.t, z3.simplify(-v.z))        # a negative literal stays a numeral
             return SV(v.t, -v.z)
         if isinstance(node.op, ast.UAdd):
             return v
@@ -641,6 +648,10 @@ class Exec:
             n = z3.If(b.z > 0, b.z, z3.IntVal(0))
             self.oblige(st, "safety.repeat_singleton", la == 1, "safety", node, "[x] * n needs a 1-element list")
             return self.new_seq(st, a.t.elem, n, lambda j: aa[0], a.t.kind, "rep")
+        if isinstance(a.t, TOpt) and a.t.inner in (INT, REAL):
+            a = self.unwrap(st, a, node, "left operand")
+        if isinstance(b.t, TOpt) and b.t.inner in (INT, REAL):
+            b = self.unwrap(st, b, node, "right operand")
         if a.t in (INT, REAL, BOOL) and b.t in (INT, REAL, BOOL):
             if isinstance(op, ast.Div):
                 x, y = self.to_real(a), self.to_real(b)
